@@ -1108,12 +1108,23 @@ def exact_select(
     if not afs:
         return None
 
-    pick = min if is_min else max
     joined = reduce(lambda a, b: a | b, afs)
+    # An operand bounds the result only through its *finite* bound: one that
+    # may be `+inf` loses every `min` it takes part in, so `min(4, y)` is 4
+    # for an infinite `y` whatever the largest finite `y` is (and dually for
+    # `max` and `-inf`).  If every operand may be, any of them may decide.
+    if is_min:
+        caps = [af.pos_bound for af in afs if not af.has_pos_inf]
+        pos_bound = min(caps) if caps else max(af.pos_bound for af in afs)
+        neg_bound = min(af.neg_bound for af in afs)
+    else:
+        floors = [af.neg_bound for af in afs if not af.has_neg_inf]
+        neg_bound = max(floors) if floors else min(af.neg_bound for af in afs)
+        pos_bound = max(af.pos_bound for af in afs)
     return AbstractFormat(
         joined.prec, joined.exp,
-        pick(af.pos_bound for af in afs),
-        neg_bound=pick(af.neg_bound for af in afs),
+        pos_bound,
+        neg_bound=neg_bound,
         has_pos_inf=joined.has_pos_inf,
         has_neg_inf=joined.has_neg_inf,
         has_nan=joined.has_nan,
